@@ -240,6 +240,36 @@ func c12Birth(w *W, d *Day, t hms, ti int) {
 				bad := func(what string, got, want interface{}) {
 					w.Viol(fmt.Sprintf("C12:DaYun:%s:%s", what, d.Ymd), fmt.Sprintf("%s period %d: %s = %v, reference %v", ctx, i, what, got, want), ctx)
 				}
+				// the exported constructors build the same objects as the lists (periods 0..2 of every configuration)
+				if i <= 2 {
+					if msg, p := try(func() {
+						y2 := calendar.NewYun(ec, g, school)
+						c := calendar.NewDaYun(yun, i)
+						c2 := calendar.NewDaYun(y2, i)
+						for _, x := range []*calendar.DaYun{c, c2} {
+							if x.GetStartYear() != dy.GetStartYear() || x.GetEndYear() != dy.GetEndYear() || x.GetStartAge() != dy.GetStartAge() || x.GetEndAge() != dy.GetEndAge() || x.GetGanZhi() != dy.GetGanZhi() || x.GetIndex() != dy.GetIndex() {
+								bad("NewDaYun", fmt.Sprintf("%d..%d ages %d..%d %s", x.GetStartYear(), x.GetEndYear(), x.GetStartAge(), x.GetEndAge(), x.GetGanZhi()), fmt.Sprintf("list item %d..%d ages %d..%d %s", dy.GetStartYear(), dy.GetEndYear(), dy.GetStartAge(), dy.GetEndAge(), dy.GetGanZhi()))
+							}
+						}
+						if lnL := dy.GetLiuNian(); len(lnL) > 0 {
+							k := len(lnL) - 1
+							a, b := calendar.NewLiuNian(c, k), lnL[k]
+							if a.GetYear() != b.GetYear() || a.GetAge() != b.GetAge() || a.GetIndex() != b.GetIndex() || a.GetGanZhi() != b.GetGanZhi() {
+								bad("NewLiuNian", fmt.Sprintf("%d age %d %s", a.GetYear(), a.GetAge(), a.GetGanZhi()), fmt.Sprintf("list item %d age %d %s", b.GetYear(), b.GetAge(), b.GetGanZhi()))
+							}
+							ma, mb := calendar.NewLiuYue(a, 11), b.GetLiuYue()[11]
+							if ma.GetGanZhi() != mb.GetGanZhi() || ma.GetIndex() != mb.GetIndex() || ma.GetMonthInChinese() != mb.GetMonthInChinese() {
+								bad("NewLiuYue", ma.GetGanZhi(), mb.GetGanZhi())
+							}
+							xa, xb := calendar.NewXiaoYun(c, k, yun.IsForward()), dy.GetXiaoYun()[k]
+							if xa.GetYear() != xb.GetYear() || xa.GetAge() != xb.GetAge() || xa.GetIndex() != xb.GetIndex() || xa.GetGanZhi() != xb.GetGanZhi() {
+								bad("NewXiaoYun", fmt.Sprintf("%d age %d %s", xa.GetYear(), xa.GetAge(), xa.GetGanZhi()), fmt.Sprintf("list item %d age %d %s", xb.GetYear(), xb.GetAge(), xb.GetGanZhi()))
+							}
+						}
+					}); p {
+						bad("constructors:panic", msg, "no panic")
+					}
+				}
 				if dy.GetIndex() != i {
 					bad("index", dy.GetIndex(), i)
 				}
